@@ -29,10 +29,41 @@ def freq_args(with_spectrum=True, target=True):
     return build
 
 
+class _Folded(object):
+    """A function whose chains of augmented assignments to a local (directly after its assignment, in the same block) are folded into
+    one expression.  Only the algebraic normal forms of this module read it."""
+    def __init__(self, fi):
+        import copy
+        self._fi = fi
+        self.node = copy.deepcopy(fi.node)
+
+        def fold(block):
+            out = []
+            for st in block:
+                for fld in ("body", "orelse", "finalbody"):
+                    sub = getattr(st, fld, None)
+                    if isinstance(sub, list) and sub and isinstance(sub[0], ast.stmt) and not isinstance(st, (ast.FunctionDef, ast.ClassDef)):
+                        setattr(st, fld, fold(sub))
+                prev = out[-1] if out else None
+                if isinstance(st, ast.AugAssign) and isinstance(st.target, ast.Name) and isinstance(prev, ast.Assign) and len(prev.targets) == 1 and \
+                        isinstance(prev.targets[0], ast.Name) and prev.targets[0].id == st.target.id and \
+                        not any(isinstance(x, ast.Name) and x.id == st.target.id for x in ast.walk(st.value)):
+                    prev.value = ast.BinOp(left=prev.value, op=st.op, right=st.value)
+                    ast.fix_missing_locations(prev)
+                    continue
+                out.append(st)
+            return out
+        self.node.body = fold(self.node.body)
+
+    def __getattr__(self, k):
+        return getattr(self._fi, k)
+
+
 def window_summary(chk, fi, c):
     """(argument form, window form, 0/0 replacement, normalisation axis) extracted from one implementation"""
     arg = win = None
     arg_name = None
+    fi = _Folded(fi)          # x = E; x /= A; x **= 4  read as  x = ((E) / A) ** 4  (algebraic form only: the interpreter sees the real statements)
     # the weights variable is the third argument of the np.where replacement
     wvar = None
     for n in ast.walk(fi.node):
@@ -45,7 +76,7 @@ def window_summary(chk, fi, c):
             p0 = Normaliser().poly(n.value)
             if p0.is_monomial() and any(a.startswith(("np.log10(", "numpy.log10(")) for a in p0.atoms()) and arg is None:
                 sub = Normaliser()
-                sub.env = {k: v for k, v in penv.env.items() if k != n.targets[0].id and len(v.atoms()) == 1 and v == Poly.atom(list(v.atoms())[0])}
+                sub.env = {k: v for k, v in penv.env.items() if k != n.targets[0].id}       # temporaries inside the logarithm are inlined
                 arg, arg_name, arg_node = sub.poly(n.value), n.targets[0].id, n
     norm = straightline_env(fi.node.body, Normaliser(), exclude={arg_name} | set(fi.params))
     for n in ast.walk(fi.node):
@@ -125,10 +156,19 @@ def run(chk):
             okw = len(wh) == 1 and wh[0].args[1].has_const() and wh[0].args[1].const == 1 and (wh[0].args[0].note or "") == "cmp:Eq"
             cmps = [e for e in r.events("compare", q) if e.op == "Eq" and e.right.has_const() and e.right.const == 0 and
                     "p:band" in e.left.tags]
+            # the same replacement written as a store through the mask: weights[argument == 0] = 1
+            masked = [e for e in r.events("mutation", q) if e.how == "subscript-store" and e.index is not None and e.index.kind == K_ARRAY and
+                      e.index.dtype == "bool" and (e.index.note or "") == "cmp:Eq" and e.value is not None and e.value.has_const() and
+                      e.value.const == 1 and not isinstance(e.value.const, bool)]
+            if not wh and len(masked) == 1:
+                okw = True
             chk.ob("R-KO-NONNEG", cc + "{0/0}", "np.where(argument == 0, 1, weights)", okw and len(cmps) == 1,
-                   derived="%d where, %d `== 0` tests on the argument" % (len(wh), len(cmps)), loc=wh[0].loc if wh else r.fi.loc())
+                   derived="%d where, %d store(s) of 1 through an `== 0` mask, %d `== 0` tests on the argument" % (len(wh), len(masked), len(cmps)),
+                   loc=wh[0].loc if wh else (masked[0].loc if masked else r.fi.loc()))
             if wh:
                 expect(chk, "R-KO-NONNEG", cc + "{weights}", wh[0].args[2], sign="nonneg", const_in=[R], loc=wh[0].loc)
+            elif len(masked) == 1:
+                expect(chk, "R-KO-NONNEG", cc + "{weights}", masked[0].target, sign="nonneg", const_in=[R], loc=masked[0].loc)
             sums = [e for e in r.events("lib-call", q) if e.name == "numpy.sum"]
             axes = [(e.kwargs.get("axis") or (e.args[1] if len(e.args) > 1 else const_av(None))) for e in sums]
             axv = [a.const if a.has_const() else "?" for a in axes]
